@@ -1343,6 +1343,10 @@ class Interp:
                 return self.import_module(sub)
             if getattr(o, 'opaque', False):
                 return Opaque(sub)
+            if o.name in self.module_models:
+                # a model of a dependency, not the dependency: what it does
+                # not offer is unknown to the engine, not absent from Python
+                raise Unsupported('%s.%s is not modelled' % (o.name, name))
             self.throw(AttributeError, "module '%s' has no attribute '%s'"
                        % (o.name, name))
         if isinstance(o, SuperVal):
